@@ -104,13 +104,14 @@ def c25(pid, tier):
 @register("C26")
 def c26(pid, tier):
     hs = [("common", f"compact_hash_domain_len_{n}") for n in ((0, 7, 8, 24) if tier == "quick" else (0, 7, 8, 9, 16, 24))]
-    hs += [("common", "byte_encoders_reject_input_longer_than_1_mib"), ("common", "node_hash_errors_on_noncanonical_child_and_matches_presorted")]
+    hs += [("common", "byte_encoders_reject_input_longer_than_1_mib")]
+    # the node-hash harness (sort of four 32-byte children over a stubbed sponge) is kept in kani-h/common but not
+    # registered: it runs 10+ minutes and ends in allocator-model failures that do not replay (DESIGN.md section 4)
     return run_kani_check(pid, tier, hs,
                           ["zk_circuits_common::serialization::hash_bytes_compact (via guarded re-export)", "qp_poseidon_core::serialization::{bytes_to_felts_compact, bytes_to_u64s_compact}",
-                           "zk_circuits_common::zk_merkle::{hash_node, hash_node_presorted}"],
+],
                           {"compact_hash": "inputs of length 0,7,8,(9,16,)24 with symbolic content: accepted iff aligned and every limb < p; the felt sequence passed to the sponge equals the limb sequence (injective)",
-                           "node_hash": "four children with a symbolic first limb each (any u64 incl. >= p), other limbs zero: Err iff a limb >= p, preimage ascending, invariant under swapping any two children",
-                           "outside": "longer inputs; children with several non-zero limbs; the Poseidon2 permutation itself"},
+                           "outside": "longer inputs; hash_node / hash_node_presorted (error on non-canonical child, order independence) are NOT covered: the harness did not produce a replayable verdict; the Poseidon2 permutation itself"},
                           [HASH_MODEL], timeout_q=1800, timeout_t=3600, parallel=8, mem_gb=14)
 
 
